@@ -166,3 +166,50 @@ impl std::io::Write for Sink {
         Ok(())
     }
 }
+
+
+// ---------------------------------------------------------------------------------------------
+// outputs handed out through the C interface: the callee passes ownership of an output to the
+// caller, so what an earlier Buffer designates must not change when later calls are made
+// ---------------------------------------------------------------------------------------------
+
+thread_local! {
+    static FFI_OUTPUTS: std::cell::RefCell<std::collections::VecDeque<(usize, usize, Vec<u8>)>> = const { std::cell::RefCell::new(std::collections::VecDeque::new()) };
+    static FFI_OUTPUT_BROKEN: std::cell::RefCell<Option<String>> = const { std::cell::RefCell::new(None) };
+}
+
+/// read an output Buffer (pointer, length) the C interface just handed out: first re-read the last 24
+/// outputs of this thread against the bytes they held when they were handed out, then remember this one
+pub fn ffi_take_output(ptr: *const u8, len: usize) -> Vec<u8> {
+    FFI_OUTPUTS.with(|p| {
+        for (addr, l, bytes) in p.borrow().iter() {
+            let now = unsafe { std::slice::from_raw_parts(*addr as *const u8, *l) };
+            if now != &bytes[..] {
+                FFI_OUTPUT_BROKEN.with(|b| {
+                    let mut b = b.borrow_mut();
+                    if b.is_none() {
+                        *b = Some(format!("an output buffer handed out by an earlier call through the C interface ({l} bytes at {addr:#x}) reads differently after a later call"));
+                    }
+                });
+                break;
+            }
+        }
+    });
+    if ptr.is_null() || len == 0 {
+        return vec![];
+    }
+    let bytes = unsafe { std::slice::from_raw_parts(ptr, len) }.to_vec();
+    FFI_OUTPUTS.with(|p| {
+        let mut q = p.borrow_mut();
+        if q.len() >= 24 {
+            q.pop_front();
+        }
+        q.push_back((ptr as usize, len, bytes.clone()));
+    });
+    bytes
+}
+
+/// the first breach noticed since the last call of this function
+pub fn ffi_outputs_breach() -> Option<String> {
+    FFI_OUTPUT_BROKEN.with(|b| b.borrow_mut().take())
+}
